@@ -92,7 +92,7 @@ func (x *Abs) Datagram(raw []byte) J {
 func (x *Abs) Server(s RawServer) J {
 	return J{"key": x.KR.Name(s.PublicKey), "banned": s.Banned, "loc": s.Location,
 		"ports": []int{int(s.HttpPort), int(s.TcpPort), int(s.UdpPort)},
-		"sig": x.SR.Describe(s.Sig, RefServerSigningBytes(s))}
+		"sig":   x.SR.Describe(s.Sig, RefServerSigningBytes(s))}
 }
 
 func (x *Abs) Servers(l []RawServer) []J {
